@@ -140,6 +140,27 @@ pub fn judge(src: &str, o: &mut Outcome) {
     }
 }
 
+/// constructs the AST builder itself rejects (errors attached to a whole node), spread over several lines
+fn multiline_custom_errors() -> Vec<(String, String)> {
+    let head = "// é 日本\nparty A;\n\ntx t(n: Int) {\n    input src {\n        from: A,\n        min_amount: Ada(n),\n    }\n";
+    let tail = "    output {\n        to: A,\n        amount: src - fees,\n    }\n}\n";
+    let mut v = vec![];
+    let blocks = [
+        ("stake-delegation-unknown-field", "    cardano::stake_delegation_certificate {\n        pool: 0xAB,\n        stake: 0xCD,\n        extra: 1,\n    }\n"),
+        ("stake-delegation-missing-field", "    cardano::stake_delegation_certificate {\n        pool: 0xAB,\n    }\n"),
+        ("number-out-of-range", "    metadata {\n        1:\n          99999999999999999999999999,\n    }\n"),
+        ("utxo-ref-odd-hex", "    reference r {\n        ref:\n          0xABC#1,\n    }\n"),
+        ("bitcoin-block", "    bitcoin::foo\n"),
+    ];
+    for (n, b) in blocks {
+        v.push((format!("custom-error-{n}"), format!("{head}{b}{tail}")));
+        v.push((format!("custom-error-{n}-first"), format!("tx t(n: Int) {{\n{b}}}\n")));
+    }
+    v.push(("custom-error-tuple-variant".into(), "party A;\ntype Order {\n    Buy(\n        Int,\n        Bytes,\n    ),\n    Sell,\n}\ntx t() {}\n".into()));
+    v.push(("custom-error-tuple-variant-one-line".into(), "type Order { Buy(Int,), }".into()));
+    v
+}
+
 impl Prop for C19 {
     fn id(&self) -> &'static str {
         "C19"
@@ -189,6 +210,9 @@ impl Prop for C19 {
                 }
                 sink.case(|| json!({"kind": "inject", "base": name, "at": src.len(), "token": off, "src": format!("{src}{off}")}));
             }
+        }
+        for (name, src) in multiline_custom_errors() {
+            sink.case(|| json!({"kind": "custom-error", "base": name, "src": src}));
         }
         c12::C12.enumerate(tier, sink);
     }
